@@ -190,7 +190,10 @@ def validate_batch(module: str, traces: list[dict], *, constants: dict[str, str]
         cfg = os.path.join(d, "trace.cfg")
         consts = dict(constants or {})
         write_cfg(cfg, spec="TraceSpec", constants=consts or None, postcondition=None)
-        env = {"TRACE_FILE": path, "DEVIATIONS": ",".join(deviations or [])}
+        devs = os.path.join(d, "devs.json")
+        with open(devs, "w") as f:
+            json.dump(list(deviations or []), f)
+        env = {"TRACE_FILE": path, "DEVS_FILE": devs}
         r = run(module, cfg, workers=1, env=env, timeout=timeout, heap=heap)
         if r.error or r.violated:
             raise MachineryError(f"trace validation {module}: {r.error or r.violated}\n{r.out[-3000:]}")
